@@ -5,6 +5,856 @@ import OLP.KV.Spec
 
 namespace OLP.KV
 
+set_option linter.unusedSectionVars false
+
 variable {K V : Type} [DecidableEq K] [DecidableEq V]
+
+/-! ### generic list lemmas -/
+
+theorem find?_filter_of_imp {α : Type} (p q : α → Bool) (l : List α)
+    (h : ∀ x, p x = true → q x = true) : (l.filter q).find? p = l.find? p := by
+  induction l with
+  | nil => rfl
+  | cons a t ih =>
+    by_cases hq : q a = true
+    · rw [List.filter_cons_of_pos hq, List.find?_cons, List.find?_cons, ih]
+    · rw [List.filter_cons_of_neg hq, ih, List.find?_cons]
+      have : p a = false := by
+        cases hp : p a with
+        | false => rfl
+        | true => exact absurd (h a hp) hq
+      simp [this]
+
+theorem find?_filter_of_not {α : Type} (p q : α → Bool) (l : List α)
+    (h : ∀ x, p x = true → q x = false) : (l.filter q).find? p = none := by
+  rw [List.find?_eq_none]
+  intro x hx
+  rw [List.mem_filter] at hx
+  intro hp
+  have := h x hp
+  simp [this] at hx
+
+/-! ### `writeInto` -/
+
+theorem writeInto_versions (c : Cfg K V) (cache : List (K × V)) (t : Tree K V) :
+    (writeInto c t cache).versions = t.versions ∧ (writeInto c t cache).version = t.version ∧
+    (writeInto c t cache).rot = t.rot := by
+  induction cache generalizing t with
+  | nil => exact ⟨rfl, rfl, rfl⟩
+  | cons p tl ih =>
+    simp only [writeInto, List.foldl_cons]
+    have := ih (if p.2 = c.tomb then t.remove p.1 else t.set p.1 p.2)
+    simp only [writeInto] at this
+    rw [this.1, this.2.1, this.2.2]
+    split <;> exact ⟨rfl, rfl, rfl⟩
+
+theorem writeInto_log (c : Cfg K V) (cache : List (K × V)) (t : Tree K V) :
+    (writeInto c t cache).log = t.log ++ cache.map (toTreeOp c) := by
+  induction cache generalizing t with
+  | nil => simp [writeInto]
+  | cons p tl ih =>
+    simp only [writeInto, List.foldl_cons]
+    have := ih (if p.2 = c.tomb then t.remove p.1 else t.set p.1 p.2)
+    simp only [writeInto] at this
+    rw [this]
+    by_cases h : p.2 = c.tomb <;> simp [h, toTreeOp, Tree.remove, Tree.set]
+
+/-- with unique keys, the working tree after `Write()` reads as the block view -/
+theorem writeInto_get (c : Cfg K V) (cache : List (K × V)) (t : Tree K V)
+    (hn : (akeys cache).Nodup) (k : K) :
+    (writeInto c t cache).get k = blockView c cache t k := by
+  induction cache generalizing t with
+  | nil => rfl
+  | cons p tl ih =>
+    obtain ⟨k1, v1⟩ := p
+    have hn' : k1 ∉ akeys tl ∧ (akeys tl).Nodup := by
+      simpa [akeys] using hn
+    simp only [writeInto, List.foldl_cons]
+    have := ih (if v1 = c.tomb then t.remove k1 else t.set k1 v1) hn'.2
+    simp only [writeInto] at this
+    rw [this]
+    unfold blockView
+    by_cases hk : k1 = k
+    · subst hk
+      rw [not_mem_akeys_alookup tl k1 hn'.1]
+      by_cases hv : v1 = c.tomb <;>
+        simp [alookup, hv, dec, Tree.get, Tree.remove, Tree.set]
+    · have hk' : k ≠ k1 := fun e => hk e.symm
+      simp only [alookup, hk, if_false]
+      cases alookup k tl with
+      | some v => rfl
+      | none =>
+        by_cases hv : v1 = c.tomb
+        · simp [hv, Tree.get, Tree.remove, alookup_aerase_ne _ _ _ hk']
+        · simp [hv, Tree.get, Tree.set, alookup_upsert_ne _ _ _ _ hk']
+
+/-! ### `deleteVersion`, `commit` -/
+
+/-- `SaveVersion`: the part of `Tree.commit` before the rotation arithmetic -/
+def Tree.saved (t : Tree K V) : Tree K V :=
+  { t with versions := t.versions ++ [(t.version + 1, t.working)], version := t.version + 1,
+           log := t.log ++ [.save] }
+
+theorem deleteVersion_fields (t : Tree K V) (rel : Int) :
+    (t.deleteVersion rel).working = t.working ∧ (t.deleteVersion rel).version = t.version ∧
+    (t.deleteVersion rel).log = t.log ∧ (t.deleteVersion rel).rot = t.rot := by
+  unfold Tree.deleteVersion
+  split
+  · exact ⟨rfl, rfl, rfl, rfl⟩
+  · split <;> exact ⟨rfl, rfl, rfl, rfl⟩
+
+theorem deleteVersion_versions (t : Tree K V) (rel : Int) :
+    (t.deleteVersion rel).versions = t.versions ∨
+    (rel ≠ (t.version : Int) ∧
+      (t.deleteVersion rel).versions = t.versions.filter (fun p => (p.1 : Int) ≠ rel)) := by
+  unfold Tree.deleteVersion
+  split
+  · exact Or.inl rfl
+  · split
+    · exact Or.inl rfl
+    · next h => exact Or.inr ⟨h, rfl⟩
+
+theorem WF_of_versions_eq (t t' : Tree K V) (h1 : t'.versions = t.versions)
+    (h2 : t'.version = t.version) (wf : t.WF) : t'.WF := by
+  unfold Tree.WF at *
+  rw [h1, h2]; exact wf
+
+theorem deleteVersion_WF (t : Tree K V) (rel : Int) (wf : t.WF) : (t.deleteVersion rel).WF := by
+  have hf := deleteVersion_fields t rel
+  rcases deleteVersion_versions t rel with h | ⟨hne, h⟩
+  · exact WF_of_versions_eq t _ h hf.2.1 wf
+  · unfold Tree.WF at *
+    rw [h, hf.2.1]
+    obtain ⟨w1, w2, w3⟩ := wf
+    refine ⟨?_, ?_, ?_⟩
+    · exact List.Pairwise.sublist (List.Sublist.map _ List.filter_sublist) w1
+    · intro p hp
+      exact w2 p (List.mem_filter.mp hp).1
+    · intro hpos
+      obtain ⟨p, hp, hpe⟩ := w3 hpos
+      refine ⟨p, List.mem_filter.mpr ⟨hp, ?_⟩, hpe⟩
+      simp only [ne_eq, decide_not, Bool.not_eq_eq_eq_not, Bool.not_true, decide_eq_false_iff_not]
+      rw [hpe]; exact fun e => hne e.symm
+
+theorem deleteVersion_getVersioned (t : Tree K V) (rel ver : Int) (k : K) :
+    (t.deleteVersion rel).getVersioned ver k = t.getVersioned ver k ∨
+    (t.deleteVersion rel).getVersioned ver k = none := by
+  unfold Tree.getVersioned
+  rcases deleteVersion_versions t rel with h | ⟨_, h⟩
+  · rw [h]; exact Or.inl rfl
+  · rw [h]
+    by_cases hv : ver = rel
+    · right
+      rw [find?_filter_of_not]
+      intro x hx
+      simp only [decide_eq_true_eq] at hx
+      simp [hx, hv]
+    · left
+      rw [find?_filter_of_imp]
+      intro x hx
+      simp only [decide_eq_true_eq] at hx
+      simp [hx, hv]
+
+theorem deleteVersion_getVersioned_latest (t : Tree K V) (rel : Int) (k : K) :
+    (t.deleteVersion rel).getVersioned (t.version : Int) k = t.getVersioned (t.version : Int) k := by
+  unfold Tree.getVersioned
+  rcases deleteVersion_versions t rel with h | ⟨hne, h⟩
+  · rw [h]
+  · rw [h, find?_filter_of_imp]
+    intro x hx
+    simp only [decide_eq_true_eq] at hx
+    simp only [ne_eq, decide_not, Bool.not_eq_eq_eq_not, Bool.not_true, decide_eq_false_iff_not]
+    rw [hx]; exact fun e => hne e.symm
+
+theorem commit_cases (t : Tree K V) :
+    t.commit = t.saved ∨ (∃ r, t.commit = t.saved.deleteVersion r) ∨
+    (∃ r1 r2, t.commit = (t.saved.deleteVersion r1).deleteVersion r2) := by
+  unfold Tree.commit
+  simp only []
+  split
+  · split
+    · split
+      · exact Or.inr (Or.inr ⟨_, _, rfl⟩)
+      · exact Or.inr (Or.inl ⟨_, rfl⟩)
+    · split
+      · exact Or.inr (Or.inl ⟨_, rfl⟩)
+      · exact Or.inl rfl
+  · exact Or.inl rfl
+
+theorem saved_WF (t : Tree K V) (wf : t.WF) : t.saved.WF := by
+  obtain ⟨w1, w2, _⟩ := wf
+  unfold Tree.WF Tree.saved
+  simp only
+  refine ⟨?_, ?_, ?_⟩
+  · rw [List.map_append, List.pairwise_append]
+    refine ⟨w1, by simp, ?_⟩
+    intro a ha b hb
+    simp only [List.map_cons, List.map_nil, List.mem_singleton] at hb
+    subst hb
+    obtain ⟨p, hp, rfl⟩ := List.mem_map.mp ha
+    have := (w2 p hp).2
+    omega
+  · intro p hp
+    rcases List.mem_append.mp hp with h | h
+    · have := w2 p h; omega
+    · simp only [List.mem_singleton] at h
+      subst h; simp
+  · intro _
+    exact ⟨(t.version + 1, t.working), by simp, rfl⟩
+
+theorem commit_WF (t : Tree K V) (wf : t.WF) : t.commit.WF := by
+  have hs := saved_WF t wf
+  rcases commit_cases t with h | ⟨r, h⟩ | ⟨r1, r2, h⟩ <;> rw [h]
+  · exact hs
+  · exact deleteVersion_WF _ _ hs
+  · exact deleteVersion_WF _ _ (deleteVersion_WF _ _ hs)
+
+theorem commit_fields (t : Tree K V) :
+    t.commit.working = t.working ∧ t.commit.version = t.version + 1 ∧
+    t.commit.log = t.log ++ [.save] ∧ t.commit.rot = t.rot := by
+  rcases commit_cases t with h | ⟨r, h⟩ | ⟨r1, r2, h⟩ <;> rw [h]
+  · exact ⟨rfl, rfl, rfl, rfl⟩
+  · have := deleteVersion_fields t.saved r
+    rw [this.1, this.2.1, this.2.2.1, this.2.2.2]; exact ⟨rfl, rfl, rfl, rfl⟩
+  · have h2 := deleteVersion_fields (t.saved.deleteVersion r1) r2
+    have := deleteVersion_fields t.saved r1
+    rw [h2.1, h2.2.1, h2.2.2.1, h2.2.2.2, this.1, this.2.1, this.2.2.1, this.2.2.2]
+    exact ⟨rfl, rfl, rfl, rfl⟩
+
+theorem saved_getVersioned_old (t : Tree K V) (ver : Int) (k : K) (hver : ver ≤ (t.version : Int)) :
+    t.saved.getVersioned ver k = t.getVersioned ver k := by
+  unfold Tree.getVersioned Tree.saved
+  simp only [List.find?_append]
+  cases h : t.versions.find? (fun p => decide ((p.1 : Int) = ver)) with
+  | some p => rfl
+  | none =>
+    have : ¬ ((t.version : Int) + 1 = ver) := by omega
+    simp [this]
+
+theorem saved_getVersioned_new (t : Tree K V) (wf : t.WF) (k : K) :
+    t.saved.getVersioned ((t.version + 1 : Nat) : Int) k = alookup k t.working := by
+  unfold Tree.getVersioned Tree.saved
+  simp only [List.find?_append]
+  have : t.versions.find? (fun p => decide ((p.1 : Int) = ((t.version + 1 : Nat) : Int))) = none := by
+    rw [List.find?_eq_none]
+    intro p hp
+    have := (wf.2.1 p hp).2
+    simp only [decide_eq_true_eq]
+    omega
+  rw [this]
+  simp
+
+theorem commit_getVersioned_old (t : Tree K V) (ver : Int) (k : K)
+    (hver : ver ≤ (t.version : Int)) :
+    t.commit.getVersioned ver k = t.getVersioned ver k ∨ t.commit.getVersioned ver k = none := by
+  have hs := saved_getVersioned_old t ver k hver
+  rcases commit_cases t with h | ⟨r, h⟩ | ⟨r1, r2, h⟩ <;> rw [h]
+  · exact Or.inl hs
+  · rcases deleteVersion_getVersioned t.saved r ver k with h1 | h1
+    · exact Or.inl (h1.trans hs)
+    · exact Or.inr h1
+  · rcases deleteVersion_getVersioned (t.saved.deleteVersion r1) r2 ver k with h2 | h2
+    · rcases deleteVersion_getVersioned t.saved r1 ver k with h1 | h1
+      · exact Or.inl (h2.trans (h1.trans hs))
+      · exact Or.inr (h2.trans h1)
+    · exact Or.inr h2
+
+theorem commit_getVersioned_new (t : Tree K V) (wf : t.WF) (k : K) :
+    t.commit.getVersioned ((t.version + 1 : Nat) : Int) k = alookup k t.working := by
+  have hs := saved_getVersioned_new t wf k
+  have hv : t.saved.version = t.version + 1 := rfl
+  rcases commit_cases t with h | ⟨r, h⟩ | ⟨r1, r2, h⟩ <;> rw [h]
+  · exact hs
+  · have := deleteVersion_getVersioned_latest t.saved r k
+    rw [hv] at this
+    exact this.trans hs
+  · have h1 := deleteVersion_getVersioned_latest t.saved r1 k
+    have h2 := deleteVersion_getVersioned_latest (t.saved.deleteVersion r1) r2 k
+    rw [(deleteVersion_fields t.saved r1).2.1, hv] at h2
+    rw [hv] at h1
+    exact h2.trans (h1.trans hs)
+
+/-! ### `reopen` -/
+
+theorem reopen_fields (t : Tree K V) :
+    t.reopen.versions = t.versions ∧ t.reopen.version = t.version := by
+  unfold Tree.reopen
+  simp only []
+  split <;> exact ⟨rfl, rfl⟩
+
+theorem reopen_get (t : Tree K V) (k : K) :
+    t.reopen.get k = t.getVersioned (t.version : Int) k := by
+  unfold Tree.reopen Tree.getVersioned Tree.get
+  have : (fun (p : Nat × List (K × V)) => decide ((p.1 : Int) = (t.version : Int))) =
+      (fun p => decide (p.1 = t.version)) := by
+    funext p
+    simp [Int.natCast_inj]
+  rw [this]
+  simp only []
+  split <;> rfl
+
+/-! ### reads of an unmetered state -/
+
+theorem get_unmetered (c : Cfg K V) (s : St K V) (hm : s.metered = false) (k : K) :
+    s.get c k = (s, view c s k) := by
+  unfold St.get view blockView St.cacheGet dec
+  simp only [hm]
+  cases s.sess.bind (alookup k) with
+  | some v => rfl
+  | none =>
+    simp only [Bool.false_eq_true, if_false]
+    cases alookup k s.cache with
+    | some v => rfl
+    | none => rfl
+
+theorem has_unmetered (c : Cfg K V) (s : St K V) (hm : s.metered = false) (k : K) :
+    s.has c k = (s, (view c s k).isSome) := by
+  cases h : s.sess.bind (alookup k) with
+  | some v => by_cases hv : v = c.tomb <;> simp [St.has, view, St.deleted, dec, h, hv]
+  | none =>
+    cases h2 : alookup k s.cache with
+    | some v =>
+      by_cases hv : v = c.tomb <;>
+        simp [St.has, view, blockView, St.cacheHas, St.deleted, dec, h, h2, hm, hv]
+    | none =>
+      simp [St.has, view, blockView, St.cacheHas, Tree.has, Tree.get, h, h2, hm]
+
+/-- one step of the fold inside `St.iter` -/
+def iterStep (c : Cfg K V) (acc : St K V × List (K × Option V)) (k : K) :
+    St K V × List (K × Option V) :=
+  if acc.1.deleted c k then acc else ((acc.1.get c k).1, acc.2 ++ [(k, (acc.1.get c k).2)])
+
+theorem iter_eq_foldl (c : Cfg K V) (s : St K V) (lo hi : Option K) (asc : Bool) :
+    s.iter c lo hi asc = (s.tree.rangeKeys c lo hi asc).foldl (iterStep c) (s, []) := rfl
+
+theorem iter_foldl_unmetered (c : Cfg K V) (s : St K V) (hm : s.metered = false) (ks : List K)
+    (acc : List (K × Option V)) :
+    ks.foldl (iterStep c) (s, acc) =
+      (s, acc ++ (ks.filter (fun k => !s.deleted c k)).map (fun k => (k, view c s k))) := by
+  induction ks generalizing acc with
+  | nil => simp
+  | cons k t ih =>
+    rw [List.foldl_cons]
+    by_cases hd : s.deleted c k = true
+    · have : iterStep c (s, acc) k = (s, acc) := by simp [iterStep, hd]
+      rw [this, ih, List.filter_cons]
+      simp [hd]
+    · have : iterStep c (s, acc) k = (s, acc ++ [(k, view c s k)]) := by
+        simp [iterStep, hd, get_unmetered c s hm]
+      rw [this, ih, List.filter_cons]
+      simp [hd]
+
+theorem iter_unmetered (c : Cfg K V) (s : St K V) (hm : s.metered = false) (lo hi : Option K)
+    (asc : Bool) :
+    s.iter c lo hi asc =
+      (s, ((s.tree.rangeKeys c lo hi asc).filter (fun k => !s.deleted c k)).map
+            (fun k => (k, view c s k))) := by
+  rw [iter_eq_foldl, iter_foldl_unmetered c s hm]
+  simp
+
+/-! ### reads in general: only the gas counter moves, upwards -/
+
+/-- `s'` differs from `s` at most in the gas counter, which did not decrease -/
+def GasOnly (s s' : St K V) : Prop :=
+  s'.tree = s.tree ∧ s'.cache = s.cache ∧ s'.sess = s.sess ∧ s'.metered = s.metered ∧
+  s.gas.consumed ≤ s'.gas.consumed
+
+theorem GasOnly.refl (s : St K V) : GasOnly s s := ⟨rfl, rfl, rfl, rfl, Int.le_refl _⟩
+
+theorem GasOnly.trans {a b d : St K V} (h1 : GasOnly a b) (h2 : GasOnly b d) : GasOnly a d :=
+  ⟨h2.1.trans h1.1, h2.2.1.trans h1.2.1, h2.2.2.1.trans h1.2.2.1, h2.2.2.2.1.trans h1.2.2.2.1,
+   Int.le_trans h1.2.2.2.2 h2.2.2.2.2⟩
+
+theorem consumeStrict_some (g g' : Gas) (cost : Int) (h : g.consumeStrict cost = some g') :
+    g' = { g with consumed := g.consumed + cost } := by
+  unfold Gas.consumeStrict at h
+  split at h
+  · cases h
+  · exact (Option.some.inj h).symm
+
+theorem consumeStrict_none (g : Gas) (cost : Int) (h : g.consumed ≥ g.limit) :
+    g.consumeStrict cost = none := by
+  unfold Gas.consumeStrict
+  simp [h]
+
+theorem cacheGet_gasOnly (c : Cfg K V) (s : St K V) (k : K) : GasOnly s (s.cacheGet c k).1 := by
+  unfold St.cacheGet
+  split
+  · split
+    · exact GasOnly.refl s
+    · next g hg =>
+      have := consumeStrict_some _ _ _ hg
+      subst this
+      split
+      · refine ⟨rfl, rfl, rfl, rfl, ?_⟩
+        simp only; omega
+      · refine ⟨rfl, rfl, rfl, rfl, ?_⟩
+        simp only [Gas.consumeAlways]; omega
+  · exact GasOnly.refl s
+
+theorem cacheHas_gasOnly (s : St K V) (k : K) : GasOnly s (s.cacheHas k).1 := by
+  unfold St.cacheHas
+  split
+  · split
+    · exact GasOnly.refl s
+    · next g hg =>
+      have := consumeStrict_some _ _ _ hg
+      subst this
+      refine ⟨rfl, rfl, rfl, rfl, ?_⟩
+      simp only; omega
+  · exact GasOnly.refl s
+
+theorem get_fst (c : Cfg K V) (s : St K V) (k : K) :
+    (s.get c k).1 = s ∨ (s.get c k).1 = (s.cacheGet c k).1 := by
+  unfold St.get
+  split
+  · exact Or.inl rfl
+  · split
+    · next h => right; rw [h]
+    · next h => right; rw [h]
+
+theorem has_fst (c : Cfg K V) (s : St K V) (k : K) :
+    (s.has c k).1 = s ∨ (s.has c k).1 = (s.cacheHas k).1 := by
+  unfold St.has
+  split
+  · exact Or.inl rfl
+  · split
+    · next h => right; rw [h]
+    · next h => right; rw [h]
+
+theorem get_gasOnly (c : Cfg K V) (s : St K V) (k : K) : GasOnly s (s.get c k).1 := by
+  rcases get_fst c s k with h | h <;> rw [h]
+  · exact GasOnly.refl s
+  · exact cacheGet_gasOnly c s k
+
+theorem has_gasOnly (c : Cfg K V) (s : St K V) (k : K) : GasOnly s (s.has c k).1 := by
+  rcases has_fst c s k with h | h <;> rw [h]
+  · exact GasOnly.refl s
+  · exact cacheHas_gasOnly s k
+
+theorem iter_foldl_gasOnly (c : Cfg K V) (ks : List K) (acc : St K V × List (K × Option V)) :
+    GasOnly acc.1 (ks.foldl (iterStep c) acc).1 := by
+  induction ks generalizing acc with
+  | nil => exact GasOnly.refl _
+  | cons k t ih =>
+    rw [List.foldl_cons]
+    refine GasOnly.trans ?_ (ih _)
+    unfold iterStep
+    split
+    · exact GasOnly.refl _
+    · exact get_gasOnly c acc.1 k
+
+theorem iter_gasOnly (c : Cfg K V) (s : St K V) (lo hi : Option K) (asc : Bool) :
+    GasOnly s (s.iter c lo hi asc).1 := by
+  rw [iter_eq_foldl]
+  exact iter_foldl_gasOnly c _ (s, [])
+
+theorem step_read_gasOnly (c : Cfg K V) (s : St K V) (op : Op K V) (hr : op.isRead = true) :
+    GasOnly s (step c s op).1 := by
+  cases op <;> simp [Op.isRead] at hr
+  · exact get_gasOnly c s _
+  · exact has_gasOnly c s _
+  · exact iter_gasOnly c s _ _ _
+  · exact GasOnly.refl s
+  · exact GasOnly.refl s
+
+theorem step_read_unmetered (c : Cfg K V) (s : St K V) (hm : s.metered = false) (op : Op K V)
+    (hr : op.isRead = true) : (step c s op).1 = s := by
+  cases op <;> simp [Op.isRead] at hr
+  · simp [step, get_unmetered c s hm]
+  · simp [step, has_unmetered c s hm]
+  · simp [step, iter_unmetered c s hm]
+  · rfl
+  · rfl
+
+/-! ### writes -/
+
+theorem set_gas (c : Cfg K V) (s : St K V) (k : K) (v : V) :
+    s.gas.consumed ≤ (s.set c k v).1.gas.consumed := by
+  unfold St.set
+  split
+  · exact Int.le_refl _
+  · split
+    · split
+      · exact Int.le_refl _
+      · next g hg =>
+        have := consumeStrict_some _ _ _ hg
+        subst this
+        simp only [Gas.consumeAlways]; omega
+    · exact Int.le_refl _
+
+theorem del_gas (c : Cfg K V) (s : St K V) (k : K) :
+    s.gas.consumed ≤ (s.del c k).gas.consumed := by
+  unfold St.del
+  split
+  · exact Int.le_refl _
+  · split
+    · split
+      · exact Int.le_refl _
+      · next g hg =>
+        have := consumeStrict_some _ _ _ hg
+        subst this
+        simp only; omega
+    · exact Int.le_refl _
+
+theorem set_WF (c : Cfg K V) (s : St K V) (wf : s.WF) (k : K) (v : V) : (s.set c k v).1.WF := by
+  obtain ⟨w1, w2, w3⟩ := wf
+  unfold St.set
+  split
+  · next o ho =>
+    refine ⟨w1, ?_, w3⟩
+    intro o' ho'
+    simp only [Option.some.injEq] at ho'
+    subst ho'
+    exact nodup_akeys_upsert _ _ _ (w2 o ho)
+  · next ho =>
+    split
+    · split
+      · exact ⟨w1, w2, w3⟩
+      · exact ⟨nodup_akeys_upsert _ _ _ w1, w2, w3⟩
+    · exact ⟨nodup_akeys_upsert _ _ _ w1, w2, w3⟩
+
+theorem del_WF (c : Cfg K V) (s : St K V) (wf : s.WF) (k : K) : (s.del c k).WF := by
+  obtain ⟨w1, w2, w3⟩ := wf
+  unfold St.del
+  split
+  · next o ho =>
+    refine ⟨w1, ?_, w3⟩
+    intro o' ho'
+    simp only [Option.some.injEq] at ho'
+    subst ho'
+    exact nodup_akeys_upsert _ _ _ (w2 o ho)
+  · next ho =>
+    split
+    · split
+      · exact ⟨w1, w2, w3⟩
+      · exact ⟨nodup_akeys_upsert _ _ _ w1, w2, w3⟩
+    · exact ⟨nodup_akeys_upsert _ _ _ w1, w2, w3⟩
+
+theorem set_data (c : Cfg K V) (s : St K V) (k : K) (v : V) :
+    (s.set c k v).1.tree = s.tree ∧ (s.set c k v).1.metered = s.metered := by
+  unfold St.set
+  split
+  · exact ⟨rfl, rfl⟩
+  · split
+    · split <;> exact ⟨rfl, rfl⟩
+    · exact ⟨rfl, rfl⟩
+
+theorem del_data (c : Cfg K V) (s : St K V) (k : K) :
+    (s.del c k).tree = s.tree ∧ (s.del c k).metered = s.metered := by
+  unfold St.del
+  split
+  · exact ⟨rfl, rfl⟩
+  · split
+    · split <;> exact ⟨rfl, rfl⟩
+    · exact ⟨rfl, rfl⟩
+
+theorem GasOnly.WF {s s' : St K V} (h : GasOnly s s') (wf : s.WF) : s'.WF := by
+  obtain ⟨h1, h2, h3, _, _⟩ := h
+  unfold St.WF at *
+  rw [h1, h2, h3]; exact wf
+
+/-! ### views after writes -/
+
+theorem set_sess (c : Cfg K V) (s : St K V) (o : List (K × V)) (hs : s.sess = some o) (k : K)
+    (v : V) : s.set c k v = ({ s with sess := some (upsert o k v) }, true) := by
+  simp [St.set, hs]
+
+theorem del_sess (c : Cfg K V) (s : St K V) (o : List (K × V)) (hs : s.sess = some o) (k : K) :
+    s.del c k = { s with sess := some (upsert o k c.tomb) } := by
+  simp [St.del, hs]
+
+theorem set_nosess_unmetered (c : Cfg K V) (s : St K V) (hs : s.sess = none)
+    (hm : s.metered = false) (k : K) (v : V) :
+    s.set c k v = ({ s with cache := upsert s.cache k v }, true) := by
+  simp [St.set, hs, hm]
+
+theorem del_nosess_unmetered (c : Cfg K V) (s : St K V) (hs : s.sess = none)
+    (hm : s.metered = false) (k : K) :
+    s.del c k = { s with cache := upsert s.cache k c.tomb } := by
+  simp [St.del, hs, hm]
+
+theorem view_set_gen (c : Cfg K V) (s : St K V) (hm : s.metered = false) (k : K) (v : V) :
+    (s.set c k v).2 = true ∧ view c (s.set c k v).1 = upd (view c s) k (dec c v) := by
+  cases hs : s.sess with
+  | some o =>
+    rw [set_sess c s o hs]
+    refine ⟨rfl, ?_⟩
+    funext k'
+    simp only [view, upd, hs, Option.bind_some, alookup_upsert]
+    by_cases hk : k' = k <;> simp [hk]
+  | none =>
+    rw [set_nosess_unmetered c s hs hm]
+    refine ⟨rfl, ?_⟩
+    funext k'
+    simp only [view, upd, hs, Option.bind_none, blockView, alookup_upsert]
+    by_cases hk : k' = k <;> simp [hk]
+
+theorem view_del_gen (c : Cfg K V) (s : St K V) (hm : s.metered = false) (k : K) :
+    view c (s.del c k) = upd (view c s) k none := by
+  cases hs : s.sess with
+  | some o =>
+    rw [del_sess c s o hs]
+    funext k'
+    simp only [view, upd, hs, Option.bind_some, alookup_upsert]
+    by_cases hk : k' = k <;> simp [hk, dec]
+  | none =>
+    rw [del_nosess_unmetered c s hs hm]
+    funext k'
+    simp only [view, upd, hs, Option.bind_none, blockView, alookup_upsert]
+    by_cases hk : k' = k <;> simp [hk, dec]
+
+/-! ### corrected forms of the two C09 statements that need key-uniqueness of the overlay -/
+
+/-- `csess_keeps_view` with the hypothesis it needs: the session holds no key twice
+    (part of `St.WF`, preserved by every `step`). -/
+theorem csess_keeps_view_of_nodup (c : Cfg K V) (s s' : St K V) (h : s.csess = some s')
+    (hn : ∀ o, s.sess = some o → (akeys o).Nodup) :
+    view c s' = view c s ∧ baseView c s' = view c s ∧ s'.sess = none := by
+  unfold St.csess at h
+  cases hs : s.sess with
+  | none => simp [hs] at h
+  | some o =>
+    simp only [hs, Option.some.injEq] at h
+    subst h
+    have key : ∀ k, blockView c (commitInto s.cache o) s.tree k = view c s k := by
+      intro k
+      simp only [view, blockView, hs, Option.bind_some, commitInto,
+        alookup_foldl_upsert o s.cache (hn o hs) k]
+      cases alookup k o with
+      | some v => rfl
+      | none => rfl
+    refine ⟨?_, ?_, rfl⟩
+    · funext k
+      simp only [view, Option.bind_none]
+      exact key k
+    · funext k
+      exact key k
+
+/-- `commit_persists_block` with the hypothesis it needs: the block cache holds no key twice
+    (part of `St.WF`, preserved by every `step`). -/
+theorem commit_persists_block_of_nodup (c : Cfg K V) (s : St K V) (wf : s.tree.WF)
+    (hn : (akeys s.cache).Nodup) :
+    (∀ k, (s.commit c).tree.get k = baseView c s k) ∧
+    view c (s.commit c) = baseView c s ∧
+    (s.commit c).tree.version = s.tree.version + 1 ∧
+    (∀ k, (s.commit c).tree.getVersioned ((s.tree.version + 1 : Nat) : Int) k = baseView c s k) := by
+  have hv := writeInto_versions c s.cache s.tree
+  have hf := commit_fields (writeInto c s.tree s.cache)
+  have wf' : (writeInto c s.tree s.cache).WF := WF_of_versions_eq _ _ hv.1 hv.2.1 wf
+  have h1 : ∀ k, (s.commit c).tree.get k = baseView c s k := by
+    intro k
+    simp only [St.commit, Tree.get, hf.1]
+    exact writeInto_get c s.cache s.tree hn k
+  refine ⟨h1, ?_, ?_, ?_⟩
+  · funext k
+    rw [← h1 k]
+    simp [view, blockView, St.commit]
+  · simp only [St.commit, hf.2.1, hv.2.1]
+  · intro k
+    have := commit_getVersioned_new (writeInto c s.tree s.cache) wf' k
+    rw [hv.2.1] at this
+    simp only [St.commit]
+    rw [this]
+    exact writeInto_get c s.cache s.tree hn k
+
+/-! ### `step` / `run` -/
+
+theorem run_cons_fst (c : Cfg K V) (s : St K V) (op : Op K V) (ops : List (Op K V)) :
+    (run c s (op :: ops)).1 = (run c (step c s op).1 ops).1 := rfl
+
+theorem run_append_fst (c : Cfg K V) (s : St K V) (a b : List (Op K V)) :
+    (run c s (a ++ b)).1 = (run c (run c s a).1 b).1 := by
+  induction a generalizing s with
+  | nil => rfl
+  | cons op t ih =>
+    rw [List.cons_append, run_cons_fst, run_cons_fst, ih]
+
+theorem csess_of_none (s : St K V) (hs : s.sess = none) : s.csess = none := by
+  simp [St.csess, hs]
+
+theorem csess_of_some (s : St K V) (o : List (K × V)) (hs : s.sess = some o) :
+    s.csess = some { s with cache := commitInto s.cache o, sess := none } := by
+  simp [St.csess, hs]
+
+theorem step_csess_none (c : Cfg K V) (s : St K V) (hs : s.sess = none) :
+    (step c s .csess).1 = s := by
+  simp [step, csess_of_none s hs]
+
+theorem step_csess_some (c : Cfg K V) (s : St K V) (o : List (K × V)) (hs : s.sess = some o) :
+    (step c s .csess).1 = { s with cache := commitInto s.cache o, sess := none } := by
+  simp [step, csess_of_some s o hs]
+
+theorem getVersioned_congr (t t' : Tree K V) (h : t'.versions = t.versions) (ver : Int) (k : K) :
+    t'.getVersioned ver k = t.getVersioned ver k := by
+  unfold Tree.getVersioned; rw [h]
+
+theorem step_noncommit_versions (c : Cfg K V) (s : St K V) (op : Op K V) (h : op ≠ .commit) :
+    (step c s op).1.tree.versions = s.tree.versions ∧
+    (step c s op).1.tree.version = s.tree.version := by
+  cases op with
+  | newState l => cases l <;> exact ⟨rfl, rfl⟩
+  | set k v =>
+    show (s.set c k v).1.tree.versions = _ ∧ (s.set c k v).1.tree.version = _
+    rw [(set_data c s k v).1]; exact ⟨rfl, rfl⟩
+  | del k =>
+    show (s.del c k).tree.versions = _ ∧ (s.del c k).tree.version = _
+    rw [(del_data c s k).1]; exact ⟨rfl, rfl⟩
+  | get k => rw [(step_read_gasOnly c s (.get k) rfl).1]; exact ⟨rfl, rfl⟩
+  | has k => rw [(step_read_gasOnly c s (.has k) rfl).1]; exact ⟨rfl, rfl⟩
+  | iter lo hi asc => rw [(step_read_gasOnly c s (.iter lo hi asc) rfl).1]; exact ⟨rfl, rfl⟩
+  | begin => exact ⟨rfl, rfl⟩
+  | csess =>
+    cases hs : s.sess with
+    | none => rw [step_csess_none c s hs]; exact ⟨rfl, rfl⟩
+    | some o => rw [step_csess_some c s o hs]; exact ⟨rfl, rfl⟩
+  | dsess => exact ⟨rfl, rfl⟩
+  | write =>
+    have := writeInto_versions c s.cache s.tree
+    exact ⟨this.1, this.2.1⟩
+  | commit => exact absurd rfl h
+  | reopen => exact reopen_fields s.tree
+  | getv ver k => exact ⟨rfl, rfl⟩
+  | gas => exact ⟨rfl, rfl⟩
+
+theorem step_log (c : Cfg K V) (s : St K V) (op : Op K V)
+    (h : match op with | .write | .commit | .reopen => False | _ => True) :
+    (step c s op).1.tree.log = s.tree.log := by
+  cases op with
+  | newState l => cases l <;> rfl
+  | set k v =>
+    show (s.set c k v).1.tree.log = _
+    rw [(set_data c s k v).1]
+  | del k =>
+    show (s.del c k).tree.log = _
+    rw [(del_data c s k).1]
+  | get k => rw [(step_read_gasOnly c s (.get k) rfl).1]
+  | has k => rw [(step_read_gasOnly c s (.has k) rfl).1]
+  | iter lo hi asc => rw [(step_read_gasOnly c s (.iter lo hi asc) rfl).1]
+  | begin => rfl
+  | csess =>
+    cases hs : s.sess with
+    | none => rw [step_csess_none c s hs]
+    | some o => rw [step_csess_some c s o hs]
+  | dsess => rfl
+  | write => exact False.elim h
+  | commit => exact False.elim h
+  | reopen => exact False.elim h
+  | getv ver k => rfl
+  | gas => rfl
+
+theorem step_gas (c : Cfg K V) (s : St K V) (op : Op K V)
+    (h : match op with | .newState _ | .reopen => False | _ => True) :
+    s.gas.consumed ≤ (step c s op).1.gas.consumed := by
+  cases op with
+  | newState l => exact False.elim h
+  | set k v => exact set_gas c s k v
+  | del k => exact del_gas c s k
+  | get k => exact (step_read_gasOnly c s (.get k) rfl).2.2.2.2
+  | has k => exact (step_read_gasOnly c s (.has k) rfl).2.2.2.2
+  | iter lo hi asc => exact (step_read_gasOnly c s (.iter lo hi asc) rfl).2.2.2.2
+  | begin => exact Int.le_refl _
+  | csess =>
+    cases hs : s.sess with
+    | none => rw [step_csess_none c s hs]; exact Int.le_refl _
+    | some o => rw [step_csess_some c s o hs]; exact Int.le_refl _
+  | dsess => exact Int.le_refl _
+  | write => exact Int.le_refl _
+  | commit => exact Int.le_refl _
+  | reopen => exact False.elim h
+  | getv ver k => exact Int.le_refl _
+  | gas => exact Int.le_refl _
+
+theorem step_unmetered (c : Cfg K V) (s : St K V) (hm : s.metered = false) (op : Op K V)
+    (h : op.isMeteredNew = false) : (step c s op).1.metered = false := by
+  cases op with
+  | newState l =>
+    cases l with
+    | none => rfl
+    | some l => simp [Op.isMeteredNew] at h
+  | set k v => exact (set_data c s k v).2.trans hm
+  | del k => exact (del_data c s k).2.trans hm
+  | get k => exact (step_read_gasOnly c s (.get k) rfl).2.2.2.1.trans hm
+  | has k => exact (step_read_gasOnly c s (.has k) rfl).2.2.2.1.trans hm
+  | iter lo hi asc => exact (step_read_gasOnly c s (.iter lo hi asc) rfl).2.2.2.1.trans hm
+  | begin => exact hm
+  | csess =>
+    cases hs : s.sess with
+    | none => rw [step_csess_none c s hs]; exact hm
+    | some o => rw [step_csess_some c s o hs]; exact hm
+  | dsess => exact hm
+  | write => exact hm
+  | commit => rfl
+  | reopen => rfl
+  | getv ver k => exact hm
+  | gas => exact hm
+
+theorem step_WF (c : Cfg K V) (s : St K V) (wf : s.WF) (op : Op K V) : (step c s op).1.WF := by
+  have nil_nodup : (akeys ([] : List (K × V))).Nodup := by simp [akeys]
+  cases op with
+  | newState l =>
+    cases l <;> exact ⟨nil_nodup, (fun _ ho => by cases ho), wf.2.2⟩
+  | set k v => exact set_WF c s wf k v
+  | del k => exact del_WF c s wf k
+  | get k => exact (step_read_gasOnly c s (.get k) rfl).WF wf
+  | has k => exact (step_read_gasOnly c s (.has k) rfl).WF wf
+  | iter lo hi asc => exact (step_read_gasOnly c s (.iter lo hi asc) rfl).WF wf
+  | begin =>
+    refine ⟨wf.1, ?_, wf.2.2⟩
+    intro o ho
+    have : o = [] := (Option.some.inj ho).symm
+    subst this; exact nil_nodup
+  | csess =>
+    cases hs : s.sess with
+    | none => rw [step_csess_none c s hs]; exact wf
+    | some o =>
+      rw [step_csess_some c s o hs]
+      exact ⟨nodup_akeys_foldl_upsert o s.cache wf.1, (fun _ ho => by cases ho), wf.2.2⟩
+  | dsess => exact ⟨wf.1, (fun _ ho => by cases ho), wf.2.2⟩
+  | write =>
+    have hv := writeInto_versions c s.cache s.tree
+    exact ⟨wf.1, wf.2.1, WF_of_versions_eq _ _ hv.1 hv.2.1 wf.2.2⟩
+  | commit =>
+    have hv := writeInto_versions c s.cache s.tree
+    exact ⟨nil_nodup, (fun _ ho => by cases ho),
+      commit_WF _ (WF_of_versions_eq _ _ hv.1 hv.2.1 wf.2.2)⟩
+  | reopen =>
+    have hv := reopen_fields s.tree
+    exact ⟨nil_nodup, (fun _ ho => by cases ho), WF_of_versions_eq _ _ hv.1 hv.2 wf.2.2⟩
+  | getv ver k => exact wf
+  | gas => exact wf
+
+/-- inside an open session of an unmetered state, key writes and reads touch only the session -/
+theorem run_session_writes (c : Cfg K V) (s : St K V) (hm : s.metered = false)
+    (o : List (K × V)) (hs : s.sess = some o) (ws : List (Op K V))
+    (hw : ∀ op ∈ ws, op.isKeyWrite = true ∨ op.isRead = true) :
+    ∃ o', (run c s ws).1 = { s with sess := some o' } := by
+  induction ws generalizing s o with
+  | nil =>
+    refine ⟨o, ?_⟩
+    show s = _
+    cases s; simp only at hs; subst hs; rfl
+  | cons op t ih =>
+    have hw' : ∀ op ∈ t, op.isKeyWrite = true ∨ op.isRead = true :=
+      fun x hx => hw x (List.mem_cons_of_mem _ hx)
+    rw [run_cons_fst]
+    rcases hw op List.mem_cons_self with h | h
+    · cases op <;> simp [Op.isKeyWrite] at h
+      · next k v =>
+        have : (step c s (.set k v)).1 = { s with sess := some (upsert o k v) } := by
+          show (s.set c k v).1 = _
+          rw [set_sess c s o hs]
+        rw [this]
+        obtain ⟨o', h'⟩ := ih { s with sess := some (upsert o k v) } hm _ rfl hw'
+        exact ⟨o', h'⟩
+      · next k =>
+        have : (step c s (.del k)).1 = { s with sess := some (upsert o k c.tomb) } := by
+          show s.del c k = _
+          rw [del_sess c s o hs]
+        rw [this]
+        obtain ⟨o', h'⟩ := ih { s with sess := some (upsert o k c.tomb) } hm _ rfl hw'
+        exact ⟨o', h'⟩
+    · rw [step_read_unmetered c s hm op h]
+      exact ih s hm o hs hw'
 
 end OLP.KV
